@@ -37,7 +37,7 @@ func defaultConst(t *rapid.T) string {
 	case 2:
 		return rapid.SampledFrom([]string{"0.5", "2.5", "1.", ".25", "1e2", "2.5E-1", "3e+0"}).Draw(t, "flt")
 	default:
-		return rapid.SampledFrom([]string{"0", "1", "2", "3", "5", "7", "11", "13", "64", "100", "9007199254740992"}).Draw(t, "int")
+		return rapid.SampledFrom([]string{"0", "1", "2", "3", "5", "7", "11", "13", "64", "100", "9007199254740992", "010", "007", "0100"}).Draw(t, "int")
 	}
 }
 
